@@ -1,6 +1,6 @@
 SPECIFICATION Spec
 CONSTANTS
-  Parts = {".", "..", "a", "b", "", "LONG", "uni", "..a", "...", "bs"}
+  Parts = {".", "..", "a", "b", "", "LONG", "uni", "..a", "...", "bs", "out2"}
   MaxParts = 2
   Forms = {"linear", "listed", "glob"}
   Partners <- QuickPartners
